@@ -2,9 +2,9 @@
 
 ACTOR_EXT = {
     "self.send": dict(event="send"),
-    "self.createActor": dict(event="createActor", returns="any", ensures=["result != 0"]),
+    "self.createActor": dict(event="createActor", returns="any", ensures=["not isnone(result)"]),
     "self.wakeupAfter": dict(event="wakeupAfter"),
-    "thespian.actors.ActorExitRequest": dict(returns="any", ensures=["result != 0"]),
+    "thespian.actors.ActorExitRequest": dict(returns="any", ensures=["not isnone(result)"]),
     "traceback.format_exc": dict(returns="any"),
 }
 BF = {"BenchmarkFailure.message": "any", "BenchmarkFailure.cause": "any"}
